@@ -56,6 +56,7 @@ class Query:
     known_id: str | None = None
     mem_gb: int = 16
     solver: str | None = None
+    field_sens: int | None = None   # CBMC --max-field-sensitivity-array-size (None: FIELD_SENS)
 
     def rust(self) -> str:
         attrs = ["#[kani::proof]", f"#[kani::unwind({self.unwind})]"]
@@ -153,7 +154,7 @@ class KaniRunner:
         gen += "\n".join(q.rust() for q in qs)
         (dst / "src" / "gen.rs").write_text(gen)
 
-    def _cargo_kani(self, cfg: str, crate: Path, extra: list[str], timeout: int, logf: Path, mem_gb: int = 16):
+    def _cargo_kani(self, cfg: str, crate: Path, extra: list[str], timeout: int, logf: Path, mem_gb: int = 16, field_sens=None):
         cmd = ["cargo", "kani", "--target-dir", str(crate / "target"), "-Z", "stubbing", "--no-assertion-reach-checks"]
         feats = FEATURES[cfg]
         if feats:
@@ -162,7 +163,7 @@ class KaniRunner:
         if "--only-codegen" not in extra:
             # CBMC tracks arrays element-wise (and so constant-propagates their contents during symbolic
             # execution) only up to this many elements; the default 64 is smaller than a certificate.
-            cmd += ["-Z", "unstable-options", "--cbmc-args", "--max-field-sensitivity-array-size", str(FIELD_SENS)]
+            cmd += ["-Z", "unstable-options", "--cbmc-args", "--max-field-sensitivity-array-size", str(field_sens or FIELD_SENS)]
 
         def limits():
             os.setsid()
@@ -212,7 +213,7 @@ class KaniRunner:
         try:
             logf = self.logs / f"{q.name}{suffix}.log"
             args = ["--harness", f"gen::{q.name}", "--exact"] + (extra or [])
-            rc, timed_out, wall = self._cargo_kani(q.config, crate, args, q.timeout, logf, q.mem_gb)
+            rc, timed_out, wall = self._cargo_kani(q.config, crate, args, q.timeout, logf, q.mem_gb, q.field_sens)
             text = logf.read_text(errors="replace")
         finally:
             pool.put(crate)
@@ -221,8 +222,11 @@ class KaniRunner:
                    solver_calls=calls, log_path=str(logf))
         r.reach = any(s == "SATISFIED" and d == "REACH" for (_, s, d, _) in checks)
         failures = [(n, d, l) for (n, s, d, l) in checks if s == "FAILURE"]
+        oom = re.search(r"ran out of memory|Out of memory|memory exhausted|std::bad_alloc", text) is not None
         if timed_out:
             r.reason = f"timeout after {q.timeout}s"
+        elif oom:
+            r.reason = f"out of memory (cap {q.mem_gb} GB)"
         elif verdict is None:
             if "memory exhausted" in text or "std::bad_alloc" in text or "Out of memory" in text:
                 r.reason = "out of memory"
@@ -281,7 +285,7 @@ class KaniRunner:
         try:
             logf = self.logs / f"{q.name}.playback-gen.log"
             args = ["--harness", f"gen::{q.name}", "--exact", "-Z", "concrete-playback", "--concrete-playback=print"]
-            self._cargo_kani(q.config, crate, args, q.timeout, logf, q.mem_gb)
+            self._cargo_kani(q.config, crate, args, q.timeout, logf, q.mem_gb, q.field_sens)
             text = logf.read_text(errors="replace")
             tests = []
             for block in re.findall(r"```\n(.*?)\n```", text, re.S):
